@@ -23,6 +23,7 @@ type fsckInfo struct {
 	BlocksOwned    int
 	HalfFreed      int // free inodes that still hold blocks (freeing in progress)
 	HalfFreedBlks  int
+	HalfFreedWhat  string // the first such inode, for reports
 	Dirs, Files    int
 	BitmapUsedBlks int // data-region blocks marked in the bitmap
 	BitmapUsedIno  int
@@ -241,6 +242,17 @@ func fsck(r *Rig, nameMax uint64) (info *fsckInfo, err error) {
 		if !inUse && cnt > 0 {
 			info.HalfFreed++
 			info.HalfFreedBlks += cnt
+			if info.HalfFreedWhat == "" {
+				var idx []uint64
+				for i := range bm {
+					idx = append(idx, i)
+				}
+				sort.Slice(idx, func(a, b int) bool { return idx[a] < idx[b] })
+				if len(idx) > 12 {
+					idx = idx[:12]
+				}
+				info.HalfFreedWhat = fmt.Sprintf("inode %d: size %d, shrink mark %d, %d blocks incl. index blocks, data blocks at file indices %v", ino, ip.Size, ip.ShrinkSize, cnt, idx)
+			}
 		}
 		if ino == common.ROOTINUM {
 			info.RootBlocks = cnt
